@@ -1085,6 +1085,16 @@ func (m *MapPollard) Verify(delHashes []Hash, proof Proof, remember bool) error 
 // This function is different from Verify() in that it's not safe for concurrent access.
 func (m *MapPollard) verify(delHashes []Hash, proof Proof, remember bool) error {
 	if TreeRows(m.NumLeaves) != m.TotalRows {
+		// Positions that don't exist can't be translated. They may end up
+		// as a position that does exist.
+		for _, target := range proof.Targets {
+			if !inForest(target, m.NumLeaves, TreeRows(m.NumLeaves)) &&
+				!inForest(target, m.NumLeaves, m.TotalRows) {
+
+				return fmt.Errorf("invalid proof. Position %d doesn't exist "+
+					"in a forest with %d leaves", target, m.NumLeaves)
+			}
+		}
 		proof.Targets = translatePositions(proof.Targets, m.TotalRows, TreeRows(m.NumLeaves))
 	}
 
